@@ -122,6 +122,7 @@ def parse_output(text, flavour):
             m = re.match(r"VIOL (\S+) (\S+) (\d+) (\S+) props=(\d+) mine=(\d) at=(-?\d+) kind=(\S+) :: (.*)", line)
             cur = Violation()
             cur.flavour = flavour
+            cur.run_index = last_begin[3] if last_begin else 0
             if m:
                 cur.universe, cur.mode, cur.seed = m.group(1), m.group(2), int(m.group(3))
                 cur.oracle = m.group(4)
